@@ -309,6 +309,47 @@ func ruleTreeThresholds(c *Ctx, r *R) {
 			})
 			good = nEdges > 0 && nEdges == okEdges
 		}
+		if !good {
+			// the merging helper is told WHERE to merge (mergeAt(parent, sepIdx)) and picks the pair itself: the node that
+			// absorbs the other one (the destination of the key copy), written in merge's terms through the call, is the
+			// left sibling exactly when it is not x; that call must sit under <that node>.n <= minKVs
+			if mt := bt(c, "mergeTwo"); mt != nil && mt != mg {
+				var dst ssa.Value
+				instrs(mt, func(_ *ssa.BasicBlock, _ int, in ssa.Instruction) {
+					if call, ok := in.(*ssa.Call); ok {
+						if bi, ok := call.Call.Value.(*ssa.Builtin); ok && bi.Name() == "copy" {
+							if nd, arr, ok := nodeArray(call.Call.Args[0]); ok && arr == "keys" {
+								dst = nd
+							}
+						}
+					}
+				})
+				if dst != nil {
+					instrs(mg, func(b *ssa.BasicBlock, _ int, in ssa.Instruction) {
+						call, ok := in.(*ssa.Call)
+						if !ok || staticCallee(&call.Call) == nil || origin(staticCallee(&call.Call)) != origin(mt) {
+							return
+						}
+						sL := symOf(dst, provEnv{chain: []*ssa.Call{call}})
+						if sL.op == "leaf" {
+							return // a node merge was given (x itself or an opaque value): the forms above decide those
+						}
+						for _, g := range append(guardsOf(b), guardsOfSelf(b)...) {
+							cf, ok := g.asCmp()
+							if !ok || cf.op != token.LEQ {
+								continue
+							}
+							if v, okc := evalConst(cf.y, 0); !okc || v != mn {
+								continue
+							}
+							if symOf(cf.x, cf.env()).String() == sL.String()+".n" {
+								good = true
+							}
+						}
+					})
+				}
+			}
+		}
 		r.ok(good, "tree.btree.merge|left-sibling-fits", mg.Pos(), "merge may pick the left sibling only under left.n <= minKVs (so that both nodes plus the separator fit one node)")
 	}
 }
